@@ -23,6 +23,12 @@ Situations beyond "one ballot on a fresh quorum" (all judged by the same referen
     scheduler rv/sched.py (pb(0), sampled pb(1), random); every call is judged against the ballots cast for
     ITS proposal. The thread cases are the last case numbers so that LINE instrumentation is switched on only
     after the sequential part of a shard.
+
+Configuration grids include the boundary values: min_voters 0 / -1 ("no minimum": a ballot without a single active
+vote is not gated and reaches the strategy) and above the colony size; thresholds 0 and 0.0 (falsy), 1e-12 ("0+"),
+0.01, 0.999, exactly 1 / 1.0, and counts above the electorate; ballots on which nobody casts an active vote (everyone
+abstains, defers, fails, raises or is unreadable). The clause "a ballot with no permit vote is never PERMIT" is judged
+for every configuration (it has no side condition), also when the arithmetic of a ballot is not judgeable.
 """
 import itertools
 import sys
@@ -38,7 +44,8 @@ LEVEL = "exploration"
 TECHNIQUE = ("runtime monitoring: stub voter agents drive the real run_vote over swept and seeded ballots; an exact "
              "reference model of the stated criteria judges every QuorumResult; metamorphic partner ballots are run "
              "back to back; callback stubs and sys.monitoring reach counters observe the anchored functions")
-RULE = ("cases = complete sweep of small electorates (reduced voter grid) x 7 strategies x thresholds x min_voters and "
+RULE = ("cases = complete sweep of small electorates (reduced voter grid) x 7 strategies x thresholds (incl. 0, 1e-12, 1, "
+        "counts above the electorate) x min_voters {0,1,2,n} and "
         "EmergencyQuorum (each followed by a membership change + re-vote on the live quorum), a sweep of 2-3 member "
         "colonies whose members share names, then seeded random electorates of 1..7 voters over the full grid "
         "(sessions on one live quorum: set_strategy round trips, add_agent/remove_agent, colonies built through add_agent "
@@ -51,6 +58,9 @@ ASSUMPTIONS = [
     "voters raise only Exception subclasses; verdict words are PERMIT/EXECUTE/BLOCK/DEFER/FAILURE or unknown upper-case words",
     "weights and confidences come from the grid {0,.5,1,3} x {0,.2,.3,.5,1, absent, non-numeric}; reliability only moves through update_all_reliability",
     "THRESHOLD: custom t<1 is a share of the colony (ceil(t*n), at least 1), t>=1 a count, default n//2+1; min_voters counts permit+block ballots (DEFER not judged)",
+    "boundary configurations: min_voters <= 0 means no minimum (nothing is gated, every clause still applies); a threshold of 0 / 0.0 "
+    "may be read as 'no custom threshold' or as 0 (only the weaker reading is judged); thresholds are non-negative and counts are "
+    "whole numbers (negative thresholds, fractional counts > 1 and an empty colony are outside the quantifier and not exercised)",
     "BAYESIAN is judged by 'needs a permit ballot', monotonicity, and unanimous-permit => PERMIT only for thresholds <= 0.5",
     "exact ties within 1e-9 of the threshold are not judged when the weights are not exactly representable",
     "the electorate of a vote is the colony at the time of the call (after any add_agent/remove_agent); every colony member casts "
@@ -72,17 +82,19 @@ SWEEP_TOKENS = [
     ("BLOCK", 1, 1), ("BLOCK", 3, 1), ("BLOCK", 1, 0.2),
     ("UNKNOWN", 1, 1), ("DEFER", 1, 1), ("raise", 1, 1),
 ]
-SWEEP_THRESHOLDS = [None, 0.3, 0.5, 0.666, 0.9, 1, 2, 3, 4]
+TINY = 1e-12                                       # a positive threshold below every reachable share ("0+")
+# boundary values on purpose: 0 (falsy: "no threshold"), 0+, exactly 1, counts above the electorate
+SWEEP_THRESHOLDS = [None, 0, TINY, 0.3, 0.5, 0.666, 0.9, 1, 2, 3, 4]
 
 
 def _configs(n):
     out = []
-    mvs = sorted({1, 2, n})
+    mvs = sorted({0, 1, 2, n})                      # 0 = "no minimum": an electorate without any active ballot reaches the strategy
     for s in STRATEGIES:
         for t in SWEEP_THRESHOLDS:
             for mv in mvs:
                 out.append(("quorum", s, t, mv))
-    for t in ["default", 0.5, 1, 2]:
+    for t in ["default", 0, TINY, 0.5, 1, 2]:
         out.append(("emergency", "threshold", t, 1))
     return out
 
@@ -93,7 +105,8 @@ SWEEP_CONFIGS = {n: _configs(n) for n in (1, 2, 3, 4)}
 # colonies whose members share a name: (members created by the constructor, names added through add_agent)
 SHARED_ROSTERS = {2: [(1, ["Bacterium_0"]), (0, ["scout", "scout"])],
                   3: [(2, ["Bacterium_0"]), (0, ["scout", "scout", "scout"]), (1, ["scout", "scout"])]}
-SHARED_CONFIGS = [("quorum", s_, None, 1) for s_ in STRATEGIES] + [("quorum", "threshold", 2, 1), ("emergency", "threshold", "default", 1)]
+SHARED_CONFIGS = ([("quorum", s_, None, 1) for s_ in STRATEGIES] + [("quorum", s_, None, 0) for s_ in STRATEGIES] +
+                  [("quorum", "threshold", 2, 1), ("quorum", "threshold", TINY, 0), ("emergency", "threshold", "default", 1)])
 
 
 def _sweep_sizes(max_n):
@@ -150,9 +163,14 @@ def plan(tier):
            "reach:QuorumSensing.add_agent": 5000, "reach:QuorumSensing.remove_agent": 2000,
            "shared_name_ballots": 1500, "shared_name_ballots:mixed": 500,
            "nested_votes:voter": 300, "nested_votes:callback": 200, "nested_results_judged": 1200,
-           "thread_schedules": 600, "thread_results_judged": 1200, "thread_schedules_overlapping": 300}
+           "thread_schedules": 600, "thread_results_judged": 1200, "thread_schedules_overlapping": 300,
+           # boundary configurations
+           "min_voters_zero_ballots": 20000, "min_voters_above_colony_ballots": 8000, "no_active_ballot_checked": 4000,
+           "no_active_ballot_ungated": 2000, "threshold_zero_ballots": 7000, "threshold_tiny_ballots": 5000,
+           "threshold_tiny_no_permit_ungated": 500, "threshold_above_colony_ballots": 5000}
     for s in STRATEGIES:
         req["strategy:" + s] = 2000
+        req["no_active_ballot_ungated:" + s] = 300
     for f in ("_simple_majority", "_supermajority", "_unanimous", "_weighted_vote", "_confidence_vote",
               "_bayesian_vote", "_threshold_vote"):
         req["reach:QuorumSensing." + f] = 1500
@@ -515,8 +533,31 @@ def assess(ctx, h, ballot, res, rel, mine, stray, desc, tag, mprefix=""):
         ctx.violation(mprefix + "strategy-mismatch", "result carries strategy %r" % (res.strategy,), desc)
 
     # ---- decision against the statement
+    # boundary configurations reached (evidence that the grid really got there)
+    if h.min_voters <= 0:
+        ctx.count("min_voters_zero_ballots")
+    elif h.min_voters > n:
+        ctx.count("min_voters_above_colony_ballots")
+    if p + b == 0:
+        ctx.count("no_active_ballot_checked")
+        if p + b + d >= h.min_voters:             # no gate can apply: the strategy itself has to say "not PERMIT"
+            ctx.count("no_active_ballot_ungated")
+            ctx.count("no_active_ballot_ungated:" + h.strategy)
+    if numeric(h.custom):
+        if h.custom == 0:
+            ctx.count("threshold_zero_ballots")
+        elif 0 < h.custom <= TINY:
+            ctx.count("threshold_tiny_ballots")
+            if p == 0 and p + b + d >= h.min_voters:
+                ctx.count("threshold_tiny_no_permit_ungated")
+        elif h.custom > n:
+            ctx.count("threshold_above_colony_ballots")
     if not judgeable and h.strategy in ("weighted", "confidence", "bayesian"):
         ctx.count("unjudgeable_confidence")
+        if p == 0 and permit:                      # the unconditional clause needs no arithmetic
+            ctx.count("no_permit_ballot_checked")
+            ctx.violation(mprefix + mech(h.strategy, h.custom, "unsupported-permit"),
+                          "PERMIT although no-permit-ballot (%d permit, %d block, %d abstain, %d defer)" % (p, b, a, d), desc)
         return permit, None, res
     v = M.evaluate(h.strategy, h.custom, h.min_voters, voters)
     if p == 0:
@@ -873,7 +914,15 @@ def random_ballot(rng, n):
                 sp = random_spec(rng)
             out.append(sp)
         return out
-    if style < 0.24:      # even split of plain votes (threshold ties)
+    if style < 0.19:      # nobody casts an active ballot: everyone abstains / defers / fails / raises / is unreadable
+        out = []
+        for _ in range(n):
+            sp = random_spec(rng)
+            while sp["kind"] in ("PERMIT", "EXECUTE", "BLOCK") and conf_value(sp) is not None:
+                sp = random_spec(rng)
+            out.append(sp)
+        return out
+    if style < 0.28:      # even split of plain votes (threshold ties)
         k = n // 2
         out = [spec("PERMIT", 1, 1) for _ in range(k)] + [spec("BLOCK", 1, 1) for _ in range(k)]
         out += [random_spec(rng) for _ in range(n - 2 * k)]
@@ -884,10 +933,11 @@ def random_ballot(rng, n):
 
 def random_config(rng, n):
     if rng.random() < 0.12:
-        return ("emergency", "threshold", rng.choice(["default", "default", 0.5, 1, 2]), 1)
+        return ("emergency", "threshold", rng.choice(["default", "default", 0.5, 1, 2, 0, TINY, 1.0, n + 1]), 1)
     s = rng.choice(STRATEGIES)
-    t = rng.choice([None, None, None, 0.3, 0.5, 0.666, 0.9, 1, 2, 3, n, 0])
-    mv = rng.choice([1, 1, 2, n, n])
+    t = rng.choice([None, None, None, 0.3, 0.5, 0.666, 0.9, 1, 2, 3, n, 0,
+                    0.0, TINY, 0.01, 0.999, 1.0, n + 1])                        # boundary values
+    mv = rng.choice([1, 1, 2, n, n, 0, 0, n + 1, rng.choice([0, -1, 7, 8])])   # 0/-1: no minimum; > n: never met
     return ("quorum", s, t, mv)
 
 
